@@ -119,6 +119,9 @@ Proof.
 Qed.
 Example ex_package_ok : package_ok (fun h => h).
 Proof. exact package_id_ok. Qed.
+(** an application meeting [app_ok]: every request is answered with [ex_reply], bodies are read up to 5 bytes *)
+Example ex_app_ok : app_ok unit unit (fun a _ => (a, ex_reply, Some 5)) /\ packages_ok unit (fun _ h => h).
+Proof. split; [intros a q; exact ex_reply_ok | intros q; exact package_id_ok]. Qed.
 (** GET, HEAD and a 416 on one connection: what is written and what the strict client reads *)
 Example ex_sequence :
   exists g h e,
